@@ -435,3 +435,140 @@ Proof.
   unfold legal_block in Hb. apply andb_prop in Hb as [_ Hlen]. apply N.leb_le in Hlen.
   rewrite write_VB_cons, !bytes_ok_app. rewrite (rdw_bytes _ Hlen), (block_body_bytes b Hlen Bb). apply IH; assumption.
 Qed.
+
+(* ====================================================================================================
+   Resumed reading: an iterator that delivered k items leaves the source at the start of item k+1,
+   so any sequence of passes on one reader delivers the records, pass by pass. *)
+
+Definition ended (k n : nat) : fin := if k <=? n then More else Done.
+
+Lemma ended_S k n : ended (S k) (S n) = ended k n.
+Proof. reflexivity. Qed.
+
+Lemma F_take_ok {A} kind lrecl : 0 < lrecl -> forall (rs : list (list A)) fuel k,
+  forallb (fun r => length r =? lrecl) rs = true -> length rs < fuel ->
+  F_take fuel k kind (Z.of_nat lrecl) (concat rs) = (firstn k rs, ended k (length rs), concat (skipn k rs)).
+Proof.
+  intros Hl. induction rs as [|r rs IH]; intros fuel k H Hf; (destruct fuel as [|f]; [cbn in Hf; lia|]).
+  - destruct k as [|k]; [reflexivity|]. cbn [concat F_take]. rewrite read_nonneg, firstn_nil, skipn_nil. reflexivity.
+  - destruct k as [|k]; [reflexivity|].
+    cbn [forallb] in H. apply andb_prop in H as [Hr Hrs]. apply Nat.eqb_eq in Hr.
+    cbn [concat F_take firstn skipn length]. rewrite read_nonneg.
+    replace (firstn lrecl (r ++ concat rs)) with r by (rewrite <- Hr; symmetry; apply firstn_exact).
+    replace (skipn lrecl (r ++ concat rs)) with (concat rs) by (rewrite <- Hr; symmetry; apply skipn_exact).
+    destruct r as [|x r']; [cbn in Hr; lia|].
+    rewrite IH by (try assumption; cbn in Hf; lia). rewrite ended_S. reflexivity.
+Qed.
+
+Lemma F_rdw_take_ok kind lrecl : 0 < lrecl -> (N.of_nat lrecl + 4 <= max_hdr)%N -> forall (rs : list (list N)) fuel k,
+  forallb (fun r => length r =? lrecl) rs = true -> length rs < fuel ->
+  F_rdw_take fuel k kind (Z.of_nat lrecl) (concat rs)
+  = (map rdw_rec (firstn k rs), ended k (length rs), concat (skipn k rs)).
+Proof.
+  intros Hl Hh. induction rs as [|r rs IH]; intros fuel k H Hf; (destruct fuel as [|f]; [cbn in Hf; lia|]).
+  - destruct k as [|k]; [reflexivity|]. cbn [concat F_rdw_take]. rewrite read_nonneg, firstn_nil, skipn_nil. reflexivity.
+  - destruct k as [|k]; [reflexivity|].
+    cbn [forallb] in H. apply andb_prop in H as [Hr Hrs]. apply Nat.eqb_eq in Hr.
+    cbn [concat F_rdw_take firstn skipn length map]. rewrite read_nonneg.
+    replace (firstn lrecl (r ++ concat rs)) with r by (rewrite <- Hr; symmetry; apply firstn_exact).
+    replace (skipn lrecl (r ++ concat rs)) with (concat rs) by (rewrite <- Hr; symmetry; apply skipn_exact).
+    assert (Hp : pack_H2x (N.of_nat (length r + 4)) = Ok (rdw (len4 r))).
+    { unfold len4. apply pack_rdw. lia. }
+    destruct r as [|x r']; [cbn in Hr; lia|].
+    rewrite Hp. rewrite IH by (try assumption; cbn in Hf; lia). rewrite ended_S. reflexivity.
+Qed.
+
+Lemma V_take_ok kind : forall rs fuel k, length rs < fuel ->
+  V_take fuel k kind (write_V rs) = (map hdr_pair (firstn k rs), ended k (length rs), write_V (skipn k rs)).
+Proof.
+  induction rs as [|r rs IH]; intros fuel k Hf; (destruct fuel as [|f]; [cbn in Hf; lia|]).
+  - destruct k; reflexivity.
+  - destruct k as [|k]; [reflexivity|].
+    rewrite write_V_cons. cbn [V_take]. rewrite firstn4_rdw, skipn4_rdw.
+    destruct (rdw (len4 r)) as [|h0 hs] eqn:Eh; [exfalso; eapply rdw_not_nil; eassumption|]. rewrite <- Eh.
+    rewrite unpack_rdw, read_payload. rewrite IH by (cbn in Hf; lia).
+    cbn [firstn skipn length map]. rewrite ended_S. reflexivity.
+Qed.
+
+Lemma B_take_ok kind : forall bs fuel k, length bs < fuel ->
+  B_take fuel k kind (write_VB bs) = (map write_block (firstn k bs), ended k (length bs), write_VB (skipn k bs)).
+Proof.
+  induction bs as [|b bs IH]; intros fuel k Hf; (destruct fuel as [|f]; [cbn in Hf; lia|]).
+  - destruct k; reflexivity.
+  - destruct k as [|k]; [reflexivity|].
+    rewrite write_VB_cons. cbn [B_take]. rewrite firstn4_rdw, skipn4_rdw.
+    destruct (rdw (N.of_nat (block_len b))) as [|h0 hs] eqn:Eh; [exfalso; eapply rdw_not_nil; eassumption|]. rewrite <- Eh.
+    rewrite unpack_rdw, read_block. rewrite IH by (cbn in Hf; lia).
+    cbn [firstn skipn length map]. rewrite ended_S. reflexivity.
+Qed.
+
+Lemma walk_take_ok : forall b fuel k off,
+  forallb (fun r => 1 <=? length r) b = true -> length b < fuel ->
+  walk_take fuel k (off + N.of_nat (length (block_body b)))%N off (block_body b)
+  = (map hdr_pair (firstn k b), ended k (length b), k - length b).
+Proof.
+  induction b as [|r b IH]; intros fuel k off H Hf; (destruct fuel as [|f]; [cbn in Hf; lia|]).
+  - destruct k as [|k]; [reflexivity|].
+    cbn [block_body map concat length walk_take]. replace (off + N.of_nat 0)%N with off by lia.
+    rewrite N.eqb_refl. reflexivity.
+  - destruct k as [|k]; [reflexivity|].
+    cbn [forallb] in H. apply andb_prop in H as [Hr Hb]. apply Nat.leb_le in Hr.
+    rewrite block_body_cons. cbn [walk_take].
+    rewrite !app_length, rdw_length.
+    set (L := (off + N.of_nat (4 + (length r + length (block_body b))))%N).
+    destruct (off =? L)%N eqn:E1; [unfold L in E1; lia|].
+    destruct (off + 4 <? L)%N eqn:E2; [|unfold L in E2; lia].
+    rewrite firstn4_rdw, skipn4_rdw, unpack_rdw.
+    destruct (len4 r =? 0)%N eqn:E3; [unfold len4 in E3; lia|].
+    assert (Hsz : N.to_nat (len4 r) = length (rdw (len4 r) ++ r)).
+    { rewrite app_length, rdw_length. unfold len4. lia. }
+    rewrite Hsz, app_assoc, skipn_exact.
+    replace (length (rdw (len4 r) ++ r) - 4) with (length r) by (rewrite app_length, rdw_length; lia).
+    rewrite firstn_exact.
+    replace L with ((off + len4 r) + N.of_nat (length (block_body b)))%N by (unfold L, len4; lia).
+    rewrite IH by (try assumption; cbn in Hf; lia). reflexivity.
+Qed.
+
+Lemma walk_take_block b k :
+  forallb (fun r => 1 <=? length r) b = true ->
+  walk_take (S (length (block_body b))) k (N.of_nat (length (block_body b))) 0%N (block_body b)
+  = (map hdr_pair (firstn k b), ended k (length b), k - length b).
+Proof.
+  intros H. pose proof (block_body_ge b).
+  replace (N.of_nat (length (block_body b))) with (0 + N.of_nat (length (block_body b)))%N at 1 by lia.
+  apply walk_take_ok; [assumption|lia].
+Qed.
+
+(* record-level pass over VB stopped at a block boundary: split_blocks says which blocks it covers *)
+Lemma VB_take_ok kind : forall bs fuel k now later,
+  legal_VB bs = true -> length bs < fuel -> split_blocks k bs = Some (now, later) ->
+  VB_take fuel k kind (write_VB bs)
+  = (map hdr_pair (concat now), ended k (length (concat bs)), write_VB later).
+Proof.
+  induction bs as [|b bs IH]; intros fuel k now later H Hf Hs; (destruct fuel as [|f]; [cbn in Hf; lia|]).
+  - cbn in Hs. injection Hs as <- <-. destruct k; reflexivity.
+  - unfold legal_VB in H. cbn [forallb] in H. apply andb_prop in H as [Hb Hbs]. fold (legal_VB bs) in Hbs.
+    pose proof (legal_block_recs b Hb) as Hrecs.
+    destruct k as [|k].
+    + cbn in Hs. injection Hs as <- <-. reflexivity.
+    + cbn [split_blocks Nat.eqb] in Hs.
+      destruct (length b <=? S k) eqn:Ek; [|discriminate]. apply Nat.leb_le in Ek.
+      destruct (split_blocks (S k - length b) bs) as [[x y]|] eqn:Es; [|discriminate].
+      cbn in Hs. injection Hs as <- <-.
+      rewrite write_VB_cons. cbn [VB_take]. rewrite firstn4_rdw, skipn4_rdw.
+      destruct (rdw (N.of_nat (block_len b))) as [|h0 hs] eqn:Eh; [exfalso; eapply rdw_not_nil; eassumption|]. rewrite <- Eh.
+      rewrite unpack_rdw, read_block, walk_take_block by assumption.
+      rewrite firstn_all2 by lia.
+      cbn [concat]. rewrite app_length, map_app.
+      unfold ended. destruct (S k <=? length b) eqn:Ek2.
+      * apply Nat.leb_le in Ek2. assert (Hk : S k - length b = 0) by lia. rewrite Hk in Es.
+        assert (Hxy : x = [] /\ y = bs) by (destruct bs; cbn in Es; injection Es as <- <-; split; reflexivity).
+        destruct Hxy as [-> ->]. cbn [concat map]. rewrite app_nil_r.
+        destruct (S k <=? length b + length (concat bs)) eqn:E3; [reflexivity|].
+        apply Nat.leb_gt in E3. lia.
+      * apply Nat.leb_gt in Ek2.
+        rewrite (IH f (S k - length b) x y) by (try assumption; cbn in Hf; lia).
+        f_equal. f_equal. unfold ended.
+        destruct (S k - length b <=? length (concat bs)) eqn:E3, (S k <=? length b + length (concat bs)) eqn:E4;
+          try reflexivity; [apply Nat.leb_le in E3; apply Nat.leb_gt in E4; lia | apply Nat.leb_gt in E3; apply Nat.leb_le in E4; lia].
+Qed.
